@@ -593,8 +593,8 @@ example : castwrap1 castInt castInt (fun l r => (intShiftCount "bsl" r).bind fun
     (.int 1) (.int 4) = .ok 16 := by decide
 
 /-- bsl on all type combinations, including promotion to big and the error cases -/
-example : bsl (.int 1) (.int 63) = .ok (.big 9223372036854775808) ∧ bsl (.int 1) (.int 62) = .ok (.int 4611686018427387904)
-    ∧ bsl (.int 1) (.int (-1)) = .err "bsl:shift-count" ∧ bsl (.big 18446744073709551616) (.int 3) = .ok (.big 147573952589676412928)
+example : bsl (.int 1) (.int 63) = .ok (.shl 1 63) ∧ bsl (.int 1) (.int 62) = .ok (.int 4611686018427387904)
+    ∧ bsl (.int 1) (.int (-1)) = .err "bsl:shift-count" ∧ bsl (.big 18446744073709551616) (.int 3) = .ok (.shl 18446744073709551616 3)
     ∧ bsl (.flt (.fin 3 2)) (.flt .nan) = .err "bsl:shift-count" ∧ bsl (.str []) (.int 1) = .err "bsl:type"
     ∧ bsl (.dv (.int 3)) (.flt (.fin 5 2)) = .ok (.int 12) := ⟨rfl, rfl, rfl, rfl, rfl, rfl, rfl⟩
 
